@@ -22,15 +22,23 @@
     1314 characters today), every ordered pair of class representatives
     ([C08_class_pairs], 71 representatives of 36 classes today), each under
     4 schemes x 2 policies.
-    WHAT IS NOT PROVED: the round trip of arbitrary strings (see the comment
-    before [C08_roundtrip_partial]); it is carried by the differential
-    correspondence and the oracle on the real code only. *)
+    THE THEOREM OVER STRINGS OF ANY LENGTH: [C08_roundtrip_unbounded] — every string
+    over the alphabet, of any length, without ligature pairs and without the
+    paragraph-whitespace runs of the known finding, round-trips under the four
+    brace schemes and both policies; [C08_roundtrip_covered] extends it to any
+    protection and any characters that satisfy the decidable per-character
+    condition [cover_ok2] (e.g. characters without a rule).  Proofs in
+    [Proofs/Unbounded*.v]: C13's chunk composition through C02's extended
+    grammar, C02's round trip, position-independence of [node_text], per-character
+    sweeps over the alphabet.  (The finite sweeps [C08_single_characters] /
+    [C08_class_pairs] and [C08_roundtrip_partial] are kept: they are instances.) *)
 From Coq Require Import NArith List Bool Arith String.
 Local Open Scope string_scope.
 Local Open Scope list_scope.
 From PLV Require Import Base.PyStr L2T.L2T Enc.Encoder Enc.Builtin Enc.RoundTrip.
 From PLV Require Import Proofs.EncBuiltinFacts Proofs.RoundTripDefs Proofs.RoundTripSweeps.
 From PLV Require Import Gen.GenBaseline.
+From PLV Require Import Proofs.UnboundedRenderDefs Proofs.UnboundedRender Proofs.UnboundedRoundTrip2 Proofs.UnboundedC08.
 From PLV Require Gen.GenUni2Latex.
 Import ListNotations.
 Local Open Scope N_scope.
@@ -92,7 +100,8 @@ Theorem C08_roundtrip_is_decode_of_chunks : forall p sl s,
   roundtrip p sl s = decode sl (List.concat (map (keep_chunk false p) s)).
 Proof. exact roundtrip_decode_of_chunks. Qed.
 
-(** ** The unbounded statement — NOT PROVED
+(** ** The bounded instance (kept; the unbounded statement is [C08_roundtrip_unbounded]
+    below).  The obligations listed here are the ones [Proofs/Unbounded*.v] discharge.
 
     DESIGN §6/C08:
 
@@ -134,6 +143,99 @@ Theorem C08_roundtrip_partial : forall p sl s,
    (exists a b, s = [a; b] /\ In a representatives /\ In b representatives)) ->
   roundtrip p sl s = Some s.
 Proof. exact roundtrip_bounded. Qed.
+
+(** ** THE ROUND TRIP OF STRINGS OF ANY LENGTH (DESIGN §6/C08, with the known
+    finding excluded)
+
+    For every string [s] over the alphabet of the property (no length bound),
+    each of the four brace-protection schemes, both whitespace policies: if [s]
+    has no ligature pair and every run of copied blanks is CLEAN ([par_clean2]: a
+    maximal run of blanks that the encoder copies — space, newline — has at most
+    one newline, or exactly two ADJACENT ones: the exclusion of the known finding
+    [C08_paragraph_whitespace_refuted]), then encoding and converting back returns [s].
+
+    How ([Proofs/Unbounded*.v]):
+    - the encoder output is the concatenation of per-character chunks
+      ([C08_encoding_is_chunkwise]);
+    - every chunk is read as atoms — top-level characters and structured items
+      (groups, macro calls) of C02's extended document grammar; the sweeps
+      [Proofs/UnboundedRT*.v] (every character of the alphabet x 4 schemes x 2
+      policies) check [cover_ok2]: the atoms' written form is the chunk, they pass
+      C13's per-chunk check (side conditions of the grammar, closed items — valid
+      for every follow string by the follow-string factorisation
+      [C13_side_conditions_factorise]), their shape is safe, and their text is
+      the character: [L2T.node_text] of the node each structured item stands for,
+      evaluated ONCE at offset 0 of the empty source — valid at every offset of
+      every source because [node_text] does not read positions
+      ([UnboundedPos.item_text_anywhere], from [ComposePos.repos_text]);
+    - the assembler ([UnboundedDefs.asm]) turns the atoms of the whole output
+      into one document of the grammar, cutting whitespace runs, paragraph breaks
+      and specials sequences across chunk boundaries as the tokenizer does; its
+      side conditions hold ([UnboundedAsm]); C02's round trip gives the tree;
+    - under both policies the text of a node list is the concatenation of the
+      texts of its nodes, so latex2text of that tree is the concatenation of the
+      atoms' texts with every whitespace run normalised ([UnboundedNodeText]);
+    - no ligature pair in the input means that only the one-character specials
+      sequence [~] arises between top-level characters ([calm_atoms2]). *)
+Theorem C08_roundtrip_unbounded : forall p sl s,
+  In p schemes -> In sl policies ->
+  (forall c, In c s -> In c c08_alphabet) -> has_ligature s = false -> par_clean2 s = true ->
+  roundtrip p sl s = Some s.
+Proof. exact roundtrip_unbounded. Qed.
+
+(** the sweep behind it: every character of the alphabet is covered, under the 4 x 2 configurations *)
+Theorem C08_alphabet_covered : forall p sl c,
+  In p schemes -> In sl policies -> In c c08_alphabet -> cover_ok2 p sl c = true.
+Proof. exact alphabet_covered. Qed.
+
+(** ... and the same beyond the alphabet and the four schemes: ANY protection (also a
+    callable) and ANY characters, as long as each character is covered — e.g. every
+    character without a rule outside the ASCII range, which policy 'keep' copies *)
+Theorem C08_roundtrip_covered : forall p sl s,
+  In sl policies -> (forall c, In c s -> cover_ok2 p sl c = true) ->
+  has_ligature s = false -> par_clean2 s = true ->
+  roundtrip p sl s = Some s.
+Proof. intros p sl s Hs. exact (roundtrip_covered2 p sl Hs s). Qed.
+
+(** ** C02 x C03 for the EXTENDED grammar: for every document [d] of
+    [Doc/DocGrammar2.v] that satisfies its side conditions and whose items are core
+    constructs of C03 ([doc_cores2 d = Some ks], computed from the document: no
+    positions, no source string), latex2text of the written document is the declarative
+    rendering of [ks] (C03's [render]), for every option record. *)
+Theorem C08_decode_of_documents : forall d ks,
+  Doc.DocGrammar2.ok_doc2 Proofs.RenderDefaults.cx0 d = true ->
+  doc_cores2 Proofs.RenderDefaults.lt0 Proofs.RenderDefaults.cx0 d = Some ks ->
+  forall o, L2T.L2TWire.latex_to_text o (Doc.DocGrammar2.unparse2 d) false
+            = Some (L2T.Render.render (nfc_accent Proofs.RenderDefaults.lt0) o (o_sls o) ks, d0).
+Proof. exact end_to_end2. Qed.
+
+(** non-vacuity: a string of 40 characters with accented letters, Greek and mathematical
+    letters (rendered through [\ensuremath]), [%], [<], the no-break space, active ASCII
+    characters, hyphens and apostrophes that are NOT ligature pairs, a paragraph break with
+    blanks around it; and a character without a rule, copied by 'keep' *)
+Example C08_roundtrip_unbounded_nonvacuous :
+  let s := [72; 233; 108; 108; 111; 32; 119; 246; 114; 108; 100; 44; 32; 231; 97; 32; 118; 97; 63; 32; 10; 10; 32;
+            198; 160; 92; 123; 120; 125; 95; 35; 45; 39; 33; 37; 60; 945; 8450; 119851; 8364] in
+  forallb (fun c => existsb (N.eqb c) c08_alphabet) s = true /\
+  has_ligature s = false /\ par_clean2 s = true /\
+  encode_builtin false PBraces UKeep s
+  = EncOk (lit "H\'ello w\""orld, \c{c}a va? " ++ [10; 10] ++
+           lit " {\AE}~{\textbackslash}\{x\}\_\#-'!\%\ensuremath{<}\ensuremath{\alpha}\ensuremath{\mathbb{C}}\ensuremath{\mathbf{r}}{\texteuro}") /\
+  roundtrip PBraces sls_macros s = Some s /\
+  (* beyond the alphabet: a character without a rule *)
+  existsb (N.eqb 20013) c08_alphabet = false /\ cover_ok2 PBraces sls_macros 20013 = true /\
+  roundtrip PBraces sls_macros [97; 20013; 233] = Some [97; 20013; 233] /\
+  (* the exclusions are needed and are exactly those of the known finding *)
+  par_clean2 [97; 10; 10; 10; 98] = false /\ par_clean2 [97; 10; 32; 10; 98] = false /\
+  par_clean2 [97; 32; 10; 10; 32; 98] = true /\ par_clean2 [97; 10; 160; 10; 98] = true.
+Proof.
+  cbv zeta. split; [vm_compute; reflexivity|]. split; [vm_compute; reflexivity|].
+  split; [vm_compute; reflexivity|]. split; [vm_compute; reflexivity|].
+  split; [vm_compute; reflexivity|]. split; [vm_compute; reflexivity|].
+  split; [vm_compute; reflexivity|]. split; [vm_compute; reflexivity|].
+  split; [vm_compute; reflexivity|]. split; [vm_compute; reflexivity|].
+  split; vm_compute; reflexivity.
+Qed.
 
 (** ** Non-vacuity *)
 
@@ -214,3 +316,7 @@ Print Assumptions C08_roundtrip_is_decode_of_chunks.
 Print Assumptions C08_roundtrip_partial.
 Print Assumptions C08_paragraph_whitespace_refuted.
 Print Assumptions C08_paragraph_break_roundtrips.
+Print Assumptions C08_roundtrip_unbounded.
+Print Assumptions C08_alphabet_covered.
+Print Assumptions C08_roundtrip_covered.
+Print Assumptions C08_decode_of_documents.
